@@ -304,6 +304,40 @@ impl Tui {
         self.machine.load_program(path, bytecode);
         Ok(())
     }
+    /// One iteration of the main loop of [`Tui::run`] without terminal setup, frame pacing and
+    /// wall clock: maintain, handle one event, draw, then (in auto-run mode) the given number of
+    /// clock triggers. Returns whether the session should end.
+    #[cfg(feature = "verif-hooks")]
+    pub fn verif_frame<B: tui::backend::Backend>(
+        &mut self,
+        terminal: &mut Terminal<B>,
+        autorun_cycles: u64,
+    ) -> Result<bool, Error> {
+        self.maintain();
+        if self.handle_event() {
+            return Ok(true);
+        }
+        terminal.draw(|mut f| {
+            let area = f.size();
+            f.render_stateful_widget(Interface, area, self);
+        })?;
+        if self.machine.auto_run_mode {
+            for _ in 0..autorun_cycles {
+                self.machine.trigger_key_clock();
+            }
+        }
+        Ok(false)
+    }
+    /// Read access to the input field.
+    #[cfg(feature = "verif-hooks")]
+    pub fn verif_input_field(&self) -> &InputState {
+        &self.input_field
+    }
+    /// The notification currently shown, if any.
+    #[cfg(feature = "verif-hooks")]
+    pub fn verif_notification(&self) -> Option<&str> {
+        self.notification_state.current.as_deref()
+    }
     fn warn_about_failed_load(&mut self, error: Error) {
         warn!("Failed to run program: {}", error);
         let warning = format!("Failed to load program:\n\n{}", error);
